@@ -22,7 +22,7 @@ def check_na_premise(ck, tu, fname, site):
     """NA stands for *every* non-ASCII code point: the scanner must not compare its character with any constant
     above 0x7f (other comparisons cannot distinguish two non-ASCII code points)."""
     import astutil
-    big = sorted({int(n['value']) for n in astutil.walk(tu.fn(fname)) if n.get('kind') in ('IntegerLiteral', 'CharacterLiteral') and int(n['value']) > 0x7f})
+    big = sorted({int(n['value']) for n in astutil.walk(tu.fn(fname)) if n.get('kind') in ('IntegerLiteral', 'CharacterLiteral') and 0x7f < int(n['value']) < 0x10ffff})          # constants at or above the largest code point are decided uniformly (Engine B)
     if big: raise AnalysisBroken(f'{site}: compares with constants above 0x7f {big}: the one-symbol abstraction of non-ASCII characters does not apply')
 
 
